@@ -29,6 +29,24 @@ claim("C12", "Coq proof over an abstract-optimizer driver model + differential c
       TRUST + " Finite thresholds as the property states; m = -inf is outside the theorem (best starts at -inf).",
       "DESIGN.md section 5, C12")
 
+claim("C13", "Coq proof (rule equivalence + loop exactness over an abstract optimizer) + exhaustive differential correspondence",
+      "Theorems (Coq, closed): C13_no_change_is_rule - the code's predicate (argmax position, then tolerances) equals the documented "
+      "rule for every finite history, n >= 1 and tolerance setting; C13_never_raises; C13_stops_exactly - for every optimizer, "
+      "objective and history search() stops at the first step where the rule holds (never earlier, never later). Tied to /repo by a "
+      "K-unit that enumerates all sequences over a 5-letter dyadic alphabet up to a length bound x n x tolerance settings x python/"
+      "numpy floats (model evaluated in Coq) and D-units on real search() runs; the monitor re-states the rule with exact Fractions.",
+      TRUST + " Scores finite (the property's quantifier); histories are the lifetime score list of the Search object, as in the code.",
+      "DESIGN.md section 5, C13")
+
+claim("C14", "Coq proof over the driver model with the clock as an arbitrary function + differential correspondence under a virtual clock",
+      "Theorem C14_max_time_exact (Coq, closed): for every optimizer, objective, T > 0, n_iter and EVERY sequence of clock readings, "
+      "the number of rows equals the first k whose post-step check reading exceeds start+T, else n_iter; the reading indices are "
+      "explicit (start = reading c0, check after step j = reading c0+5+5j). Tied to /repo by K-units (StopRun.check incl. exact "
+      "deadline, number of clock reads) and D-units (real search() under a virtual clock, optionally with costly reads, same "
+      "readings fed to the model, eval/iter times and read counts compared).",
+      TRUST + " The real wall clock is an oracle: the theorem quantifies over all readings, the harness substitutes the `time` name in search/_stop_run/_times_tracker.",
+      "DESIGN.md section 5, C14")
+
 
 def main():
     props = [json.loads(l) for l in open(os.path.join(VERIF, "properties.jsonl"))]
